@@ -21,7 +21,7 @@ namespace CM
 structure BNode where
   id : Nat
   name : String
-  deriving Repr, BEq, DecidableEq, Inhabited
+  deriving Repr, BEq, DecidableEq, Inhabited, ReflBEq, LawfulBEq
 
 /-- a `BoundEdge` -/
 structure BEdge where
@@ -215,28 +215,31 @@ def cloneEdges (flip : Bool) : List BNode â†’ Nat â†’ List BNode Ã— List BEdge Ã
     let (cs, es, nx) := cloneEdges flip rest (next + 1)
     (c :: cs, (if flip then identityEdge c n else identityEdge n c) :: es, nx)
 
+/-- `for name in set(left_outputs) & set(right_inputs)`: the stitches from the left outputs to the right inputs -/
+def commonEdges (l r : Bag) : List BEdge :=
+  l.outputs.filterMap fun o => (byName r.inputs o.name).map fun i => identityEdge o i
+/-- `left.virtual & set(right_inputs)`: right inputs that reach further upstream through the left bag -/
+def lvNodes (l r : Bag) : List BNode := r.inputs.filter fun i => l.virt.mem i.name
+def lvPart (l r : Bag) := cloneEdges true (lvNodes l r) r.next
+/-- `set(left_outputs) & (right.virtual | (left.persistent - right outputs))`: left outputs passed on -/
+def rvNodes (l r : Bag) : List BNode :=
+  l.outputs.filter fun o => r.virt.mem o.name || (l.persistent.contains o.name && !(names r.outputs).contains o.name)
+def rvPart (l r : Bag) := cloneEdges false (rvNodes l r) (lvPart l r).2.2
+
 /-- the arguments `connect_bags(left, right, freeze=True)` passes to `EdgesBag(...)`; the right bag is already the
 copy placed above the left one -/
 def connectRaw (left right : Bag) : RawBag :=
-  let rightOutNames := names right.outputs
-  -- common
-  let common := left.outputs.filterMap fun o => (byName right.inputs o.name).map fun i => identityEdge o i
-  -- left virtuals
-  let lv := right.inputs.filter fun i => left.virt.mem i.name
-  let (lvClones, lvEdges, next) := cloneEdges true lv right.next
-  let optLv := (lv.zip lvClones).filterMap fun (o, c) =>
+  let lv := lvNodes left right
+  let rv := rvNodes left right
+  let optLv := (lv.zip (lvPart left right).1).filterMap fun (o, c) =>
     if right.optional.contains o || left.optional.contains o then some c else none
-  -- right virtuals or persistent but unused
-  let rv := left.outputs.filter fun o =>
-    right.virt.mem o.name || (left.persistent.contains o.name && !rightOutNames.contains o.name)
-  let (rvClones, rvEdges, next) := cloneEdges false rv next
-  let optRv := (rv.zip rvClones).filterMap fun (i, c) =>
+  let optRv := (rv.zip (rvPart left right).1).filterMap fun (i, c) =>
     if left.optional.contains i || right.optional.contains i then some c else none
-  { inputs := left.inputs ++ lvClones, outputs := right.outputs ++ rvClones,
-    edges := left.edges ++ right.edges ++ common ++ lvEdges ++ rvEdges,
+  { inputs := left.inputs ++ (lvPart left right).1, outputs := right.outputs ++ (rvPart left right).1,
+    edges := left.edges ++ right.edges ++ commonEdges left right ++ (lvPart left right).2.1 ++ (rvPart left right).2.1,
     ctx := .chain left.ctx right.ctx, virt := left.virt.inter right.virt,
     persistent := NameSet.lunion left.persistent right.persistent,
-    optional := left.optional ++ right.optional ++ optLv ++ optRv, next := next }
+    optional := left.optional ++ right.optional ++ optLv ++ optRv, next := (rvPart left right).2.2 }
 
 /-- `connect_bags(left, right, freeze=True)`: the right bag is copied above the left one. -/
 def connectBags (left right0 : Bag) : Except BagErr Bag := do
@@ -345,5 +348,17 @@ def Bag.getNode (b : Bag) (available : List BNode) (out : String) : FieldRes :=
 /-- `GraphCompiler.fields()` -/
 def Bag.fields (b : Bag) : Except CompileErr (List String) := do
   pure (names (â† b.validate))
+
+/-! ### The hypothesis of the bag theorems, executable -/
+
+def Bag.nodes3 (b : Bag) : List BNode := b.inputs ++ b.outputs ++ edgeNodes b.edges
+
+/-- what every bag built by the library satisfies (`CM.Proofs.BagWF`: `wfB_sound`, preserved by `connect_bags`) -/
+def Bag.wfB (b : Bag) : Bool :=
+  b.nodes3.all (fun n => n.id < b.next) && !multipleIncoming b.edges &&
+  b.inputs.all (fun n => isLeafIn b.edges n) &&
+  !hasDupStr (names b.inputs) && !hasDupStr (names b.outputs) &&
+  b.outputs.all (fun n => !b.virt.mem n.name) && b.inputs.all (fun n => !b.virt.mem n.name) &&
+  b.persistent.all (fun x => (names b.outputs).contains x)
 
 end CM
